@@ -262,6 +262,8 @@ def to_z3(v: Any, like: Any = None) -> Any:
         return z3.RealVal(f'{fr.numerator}/{fr.denominator}')
     if isinstance(v, str):
         return z3.StringVal(v)
+    if isinstance(v, Obj):
+        return z3.IntVal(v.oid)       # heap objects as references (their allocation number)
     raise Unsupported(f'cannot lift {type(v).__name__} to z3')
 
 
@@ -479,7 +481,11 @@ class Interp:
             return v != 0
         if is_sym_bv(v):
             return v != 0
-        if is_sym_str(v) or is_sym_seq(v):
+        if is_sym_str(v):
+            # as a disequality (not Length > 0): the false branch then gives `v == ""`, which congruence closure
+            # can use under uninterpreted functions such as casefold
+            return v != z3.StringVal('')
+        if is_sym_seq(v):
             return z3.Length(v) > 0
         if isinstance(v, SSeq):
             return z3.Length(v.expr) > 0
